@@ -295,6 +295,9 @@ func runSets(r *driver.Run) {
 			}
 			e.verifyOthers(what, snap, -1)
 			e.keep(got, modelOf(orig))
+			for i := range xs { // the caller reuses its argument list: the new value must not alias it
+				xs[i] = sentinel
+			}
 		case 1: // Range
 			start, end := e.drawInt()%60, e.drawInt()%60
 			step := t.Range(0, 9) - 4
@@ -355,6 +358,12 @@ func runSets(r *driver.Run) {
 			e.checkResult(what, a.s, a.m)
 			if !eq(xs, orig) {
 				r.Fail("argument-modified", "Add", "%s modified its argument list: now %v", what, xs)
+			}
+			for i := range xs { // the caller reuses its argument list
+				xs[i] = sentinel
+			}
+			if !eq(a.s, a.m) {
+				r.Fail("interference", "Add aliases its argument list", "%s: the receiver changed when the caller overwrote its own argument list afterwards: now %v", what, []int(a.s))
 			}
 			e.verifyOthers(what, snap, ai)
 			e.rewrap(a)
